@@ -16,8 +16,5 @@ let b64_line line =
                 Printf.printf "L %d %d\n" (int_of_n (encode_length (n_of_int n))) (int_of_n (decode_length (n_of_int n)))
   | _ -> Printf.printf "? %s\n" line
 
-let models : (string * (string -> unit)) list = [ ("b64", b64_line) ]
-
 let () =
-  let f = try List.assoc Sys.argv.(1) models with _ -> (prerr_endline "usage: oracle <model>"; exit 2) in
-  try while true do f (input_line stdin) done with End_of_file -> ()
+  try while true do b64_line (input_line stdin) done with End_of_file -> ()
